@@ -9,6 +9,8 @@
 -/
 import OidcModel.Spec.C09
 import OidcModel.Model.C09Tie
+import OidcModel.Proofs.C09Bounds
+import OidcModel.Proofs.C09Fields
 
 namespace C09
 
